@@ -159,7 +159,10 @@ def p_frame_earth_j2000(jde, tofk5):
     lj, bj, rj = Earth.geometric_heliocentric_position_j2000(e, tofk5)
     l2, b2 = precession_ecliptical(e, JDE2000, l, b)
     s = sep_arcsec(l2(), b2(), lj(), bj())
-    return (s <= 2.0 and abs(r - rj) <= 1e-5), {'sep_arcsec': s, 'dr_au': abs(r - rj)}
+    # the latitude part on its own: the listed finding about the J2000 series is a LONGITUDE defect (a frequency
+    # of the L series); the latitudes agree to 0.43 arcsec over the whole range and must keep doing so
+    return (s <= 2.0 and abs(r - rj) <= 1e-5), {'sep_arcsec': s, 'dr_au': abs(r - rj),
+                                                'dlat_arcsec': abs(b2() - bj()) * 3600.0}
 
 
 def _rect(jde):
@@ -172,8 +175,12 @@ def p_frame_rect_j2000(jde):
     from pymeeus.Sun import Sun
     from pymeeus.Epoch import JDE2000
     e, xm = _rect(jde)
-    d = math.dist(carry_xyz(xm, e, JDE2000), Sun.rectangular_coordinates_j2000(e))
-    return d <= 1e-5, {'error_au': d}
+    a, v = carry_xyz(xm, e, JDE2000), Sun.rectangular_coordinates_j2000(e)
+    d = math.dist(a, v)
+    # component along the pole of the J2000 ecliptic (latitude part; 1.5e-6 AU at most on the unchanged code)
+    eps = math.radians(23.4392911)
+    pole = abs((-a[1] * math.sin(eps) + a[2] * math.cos(eps)) - (-v[1] * math.sin(eps) + v[2] * math.cos(eps)))
+    return d <= 1e-5, {'error_au': d, 'pole_error_au': pole}
 
 
 def p_frame_rect_b1950(jde):
